@@ -424,3 +424,208 @@ def oracle_c12(c, x):
     if r != 128:
         return "placement observation covers %d residues" % r
     return None
+
+
+def oracle_c16(c, x):
+    """twin comparison: the stream of a value with slices/iterators equals the stream with vectors"""
+    if not ser_only(x.t):
+        return None
+    st = ser_status(c, x)
+    if lying_iter(c.U, x.t, x.v):
+        # announced != actual: the length-mismatch error with both counts
+        k, n = find_lie(c.U, x.t, x.v)
+        want = "ERR IteratorLengthMismatch:%x:%x" % (n, k)
+        if st.get("status") != want:
+            return "a lying iterator (announced %d, produced %d) gave %s, required %s" % (k, n, st.get("status"), want)
+        return None
+    tw = [y for y in c.cases if getattr(y, "twin_of", None) == x.cid]
+    if not tw:
+        return "no vector twin generated"
+    tst = ser_status(c, tw[0])
+    if st.get("status") != "OK" or tst.get("status") != "OK":
+        return "serialization did not succeed (slice/iterator: %s, vector: %s)" % (st.get("status"), tst.get("status"))
+    a, b = st.get("bytes", ""), tst.get("bytes", "")
+    # padding bytes of zero-copy structs are unspecified: mask them with the model's mask
+    mm = split_ser(c.mobs.get((x.cid, "ser"), "")).get("bytes", "")
+    if len(a) != len(b):
+        return "stream lengths differ: %d bytes with the slice/iterator, %d with the vector" % (len(a) // 2, len(b) // 2)
+    for i in range(0, len(a), 2):
+        if a[i:i + 2] != b[i:i + 2] and mm[i:i + 2] != "xx":
+            return "streams differ at byte %d: %s (slice/iterator) vs %s (vector)" % (i // 2, a[i:i + 2], b[i:i + 2])
+    if st.get("chunks") is None:
+        return None
+    # and it deserializes as the vector type to the items, in both modes
+    exp = canon_of(c.U, x.t, x.v)
+    f = c.iobs.get((x.cid, "full"), "")
+    if not f.startswith("OK " + exp + " "):
+        return "the stream did not deserialize (full-copy) as the vector type to the items"
+    e = c.iobs.get((x.cid, "eps:0"), "")
+    if impl_need(c, x) is not None and not erase_refs(e).startswith("OK " + exp + " "):
+        return "the stream did not deserialize (eps-copy) as the vector type to the items"
+    return None
+
+
+def find_lie(U, t, v):
+    k = t[0]
+    if k == "siter":
+        return (v[1], len(v[2])) if v[1] != len(v[2]) else None
+    if k == "adt":
+        d = U.defs[t[1]]
+        b = inst_fields(U, t)
+        pairs = zip(b, v[1]) if d.kind == "struct" else zip(b[v[1]][2], v[2])
+        for (_, _, ft), y in pairs:
+            r = find_lie(U, ft, y)
+            if r:
+                return r
+    if k in ("opt", "bound"):
+        for y in v[2]:
+            r = find_lie(U, t[1], y)
+            if r:
+                return r
+    if k == "cf":
+        return find_lie(U, t[1 + v[1]], v[2][0])
+    return None
+
+
+def wfault_parts(c, x):
+    line = c.iobs.get((x.cid, "wfault"), "")
+    d = {}
+    for p in line.split(" "):
+        if "=" in p:
+            k, val = p.split("=", 1)
+            d[k] = val
+    return line, d
+
+
+def oracle_c13(c, x):
+    st = ser_status(c, x)
+    if st.get("status") != "OK":
+        return None
+    n = int(st["n"], 16)
+    line, d = wfault_parts(c, x)
+    if not d:
+        return "no writer-fault observation"
+    m = re.match(r"fails=(.*?)  ?flush=", line)
+    k = 0
+    for code, cnt in parse_rle(m.group(1) if m else ""):
+        if code != "ok":
+            return "writer failing after %d of %d bytes: result/accepted = %s, required WriteError with exactly the first %d bytes accepted" % (k, n, code, k)
+        k += cnt
+    if k != n + 1:
+        return "writer-fault observation covers %d failure positions, expected %d" % (k, n + 1)
+    if d.get("flush") != "WriteError/p%d" % n:
+        return "flush failure gave %s" % d.get("flush")
+    for name in ("short1", "short3", "short7intr2", "bigintr3", "file"):
+        if d.get(name) != "OK/p%d" % n:
+            return "a writer that only splits or retries (%s) gave %s, required success with exactly the fault-free bytes" % (name, d.get(name))
+    if d.get("sflush") != "WriteError/p%d" % n:
+        return "serialize_with_schema with a failing flush gave %s, required WriteError" % d.get("sflush")
+    if d.get("smid") != "WriteError/p%d" % (n // 2):
+        return "serialize_with_schema to a writer failing after %d bytes gave %s" % (n // 2, d.get("smid"))
+    if d.get("zero") != "WriteError/p%d" % (n // 2):
+        return "a writer returning Ok(0) gave %s" % d.get("zero")
+    if "devfull" in d and d["devfull"] != "WriteError":
+        return "/dev/full gave %s" % d["devfull"]
+    if "again" in d and d["again"] != "same":
+        return "the value no longer serializes to the same bytes after failed serializations (source damaged)"
+    return None
+
+
+def oracle_c14(c, x):
+    st = ser_status(c, x)
+    if st.get("status") != "OK":
+        return None
+    n = int(st["n"], 16)
+    line = c.iobs.get((x.cid, "rfault"), "")
+    if not line:
+        return "no reader-fault observation"
+    for p in line.split(" "):
+        if "=" in p and not p.startswith("fails="):
+            name, val = p.split("=", 1)
+            if val != "same":
+                return "fragmented reader '%s' changed the result of full-copy deserialization" % name
+    m = re.search(r"fails=(.*)$", line)
+    k = 0
+    for code, cnt in parse_rle(m.group(1) if m else ""):
+        if code != "ReadError":
+            return "reader failing after %d of %d bytes gave %s, required ReadError" % (k, n, code)
+        k += cnt
+    if k != n:
+        return "reader-fault observation covers %d failure positions, expected %d" % (k, n)
+    return None
+
+
+def oracle_c18(c, x):
+    sch = c.iobs.get((x.cid, "schema"), "")
+    st = ser_status(c, x)
+    if st.get("status") != "OK":
+        return None
+    if not sch.startswith("OK"):
+        return "serialize_with_schema did not succeed: %s" % sch[:100]
+    if " same=y" not in sch:
+        return "serialize_with_schema wrote different bytes than serialize"
+    if "csv=ok" not in sch or "debug=ok" not in sch:
+        return "rendering the schema failed: %s" % re.sub(r"rows=\S*", "", sch)
+    rows = schema_rows(c, x)
+    data = bytes.fromhex(st.get("bytes", ""))
+    n = len(data)
+    # pre-order: offsets never decrease; every row within the stream
+    prev = 0
+    for (f, off, size, al) in rows:
+        if off < prev:
+            return "rows are not in pre-order: %s at offset %d after offset %d" % (f, off, prev)
+        prev = off
+        if off + size > n:
+            return "row %s [%d, %d) lies outside the stream of %d bytes" % (f, off, off + size, n)
+    # rebuild the tree from the dotted paths and check the tiling
+    def is_leaf(f):
+        return f == "PADDING" or f.endswith(".zero") or f == "zero"
+    def depth(f):
+        return f.count(".") + 1
+    # top-level rows (fields of depth 1, and PADDING rows between them)
+    stack = []  # (field, off, size, children_end or None, has_children)
+    def close(upto_depth):
+        while stack and stack[-1][4] >= upto_depth:
+            f, off, size, cur, d, kids = stack.pop()
+            if kids and cur != off + size:
+                return "children of %s end at %d, the row ends at %d" % (f, cur, off + size)
+        return None
+    top_cur = 0
+    for (f, off, size, al) in rows:
+        leaf = is_leaf(f)
+        # PADDING/zero rows belong to the innermost open composite whose extent contains them
+        if f == "PADDING":
+            d = (stack[-1][4] + 1) if stack and off + size <= stack[-1][1] + stack[-1][2] and off >= stack[-1][1] else 1
+            while stack and not (off >= stack[-1][1] and off + size <= stack[-1][1] + stack[-1][2] and (size > 0 or off < stack[-1][1] + stack[-1][2])):
+                e = close(stack[-1][4])
+                if e:
+                    return e
+            d = (stack[-1][4] + 1) if stack else 1
+        else:
+            d = depth(f)
+            e = close(d)
+            if e:
+                return e
+        if stack:
+            pf_, poff, psize, pcur, pd, pk = stack[-1]
+            if off != pcur:
+                return "row %s starts at %d but the previous sibling ended at %d (gap or overlap inside %s)" % (f, off, pcur, pf_)
+            stack[-1] = (pf_, poff, psize, off + size, pd, True)
+        else:
+            if off != top_cur:
+                return "top-level row %s starts at %d but the previous one ended at %d" % (f, off, top_cur)
+            top_cur = off + size
+        if not leaf:
+            stack.append((f, off, size, off, d, False))
+        if f == "PADDING" and any(data[off:off + size]):
+            return "padding row at %d covers non-zero bytes" % off
+        if leaf and f != "PADDING" and al and not (al & (al - 1)) and off % al:
+            prev_same = [r for r in rows if r[0] == f and r[1] + r[2] == off]
+            if not prev_same:
+                return "zero-copy bytes %s at offset %d are not at a multiple of the recorded alignment %d" % (f, off, al)
+    e = close(0)
+    if e:
+        return e
+    if top_cur != n:
+        return "top-level rows end at %d, the stream has %d bytes" % (top_cur, n)
+    return None
